@@ -109,7 +109,10 @@
 use core::cell::Cell;
 use core::ptr;
 use core::sync::atomic::Ordering::*;
+#[cfg(not(arc_swap_verif))]
 use core::sync::atomic::{AtomicPtr, AtomicUsize};
+#[cfg(arc_swap_verif)]
+use crate::verif::{AtomicPtr, AtomicUsize};
 
 use super::Debt;
 use crate::RefCnt;
@@ -169,6 +172,27 @@ pub(super) struct Slots {
     /// A writer makes a switch of its and readers handover when successfully storing a replacement
     /// in the control.
     space_offer: AtomicPtr<Handover>,
+}
+
+#[cfg(arc_swap_verif)]
+impl Local {
+    pub(super) fn verif_set_generation(&self, gen: usize) {
+        self.generation.set(gen);
+    }
+}
+
+#[cfg(arc_swap_verif)]
+impl Slots {
+    /// Addresses of control, slot, active_addr, handover, space_offer.
+    pub(super) fn verif_addrs(&self) -> [usize; 5] {
+        [
+            &self.control as *const _ as usize,
+            &self.slot.0 as *const _ as usize,
+            &self.active_addr as *const _ as usize,
+            &self.handover.0 as *const _ as usize,
+            &self.space_offer as *const _ as usize,
+        ]
+    }
 }
 
 impl Default for Slots {
